@@ -745,8 +745,20 @@ fn c09_big_arith() {
     assert!(v(-big(MAXI + 1)) == Some(-(MAXI + 1)));
 }
 
-// (Products and remainders through num-bigint exhaust CBMC's memory even on concrete operands;
-// which operator the fall-back closure of `*` applies is pinned only by the test suite.)
+/// C09 points: the fall-back of `*` applies multiplication, operands in either representation
+/// (the cheap points only: `isize::MAX * 2` and products with a 2^63-sized factor take minutes or
+/// exhaust memory; remainders reach an inline-assembly division in num-bigint, unsupported)
+#[kani::proof]
+#[kani::unwind(8)]
+#[kani::stub(core::arch::x86_64::_addcarry_u64, addcarry_def)]
+#[kani::stub(core::arch::x86_64::_subborrow_u64, subborrow_def)]
+fn c09_big_mul_points() {
+    let v = |n: Num| int_value(&MD::new(n));
+    assert!(v(Num::Int(isize::MIN) * Num::Int(-1)) == Some(-MINI));
+    assert!(v(Num::Int(3) * big(5)) == Some(15));
+    assert!(v(big(5) * Num::Int(-3)) == Some(-15));
+    assert!(v(big(-5) * big(-3)) == Some(15));
+}
 
 // ------------------------------------------------------------------------------------------
 // C10 / C13: character positions in text strings
